@@ -125,7 +125,9 @@ def _run_config(ctx, r, idx, bench, use_app):
 				return
 		# one burst from a random transceiver (running or not)
 		s = r.randrange(n)
-		fn = (fn + r.choice((1, 1, 2, 3, 26, 51, 1326))) % trxd.HYPERFRAME
+		# the same frame number is used again now and then (e.g. right after a re-tune: per-frame
+		# state inside the simulator must not outlive a reconfiguration)
+		fn = (fn + r.choice((0, 0, 1, 1, 2, 3, 26, 51, 1326))) % trxd.HYPERFRAME
 		uid += 1
 		bits = bytes((uid >> k) & 1 for k in range(40)) + trxd.rand_bits(r, 108)
 		m = {"dir": "tx", "ver": bench.models[s].ver, "fn": fn, "tn": r.randrange(8),
